@@ -2,7 +2,10 @@ module dudh
 
 go 1.20
 
-require github.com/kevin-hanselman/dud v0.0.0
+require (
+	github.com/kevin-hanselman/dud v0.0.0
+	github.com/zeebo/blake3 v0.2.4
+)
 
 require (
 	github.com/VividCortex/ewma v1.2.0 // indirect
@@ -16,7 +19,6 @@ require (
 	github.com/mattn/go-runewidth v0.0.15 // indirect
 	github.com/pkg/errors v0.9.1 // indirect
 	github.com/rivo/uniseg v0.4.7 // indirect
-	github.com/zeebo/blake3 v0.2.4 // indirect
 	golang.org/x/sync v0.8.0 // indirect
 	golang.org/x/sys v0.21.0 // indirect
 	gopkg.in/yaml.v2 v2.4.0 // indirect
